@@ -89,6 +89,8 @@ impl<'a> Oracle<'a> {
         let r = catch_unwind(AssertUnwindSafe(|| match self.prop.as_str() {
             "C07" => self.c07(&toks),
             "C18" => self.c18(&toks),
+            "C16" => self.c16(&toks),
+            "C17" => self.c17(&toks),
             _ => "SKIP".to_string(),
         }));
         match r {
@@ -307,6 +309,114 @@ impl<'a> Oracle<'a> {
                 let h = match t.hcounts.get(i) { Some(h) => h, None => return "SKIP".to_string() };
                 let v: u8 = h.into();
                 if v as usize != i { return fail(format!("VirtualHydrogen #{} converts to {}", i, v)) }
+                "OK".to_string()
+            }
+            _ => "SKIP".to_string(),
+        }
+    }
+}
+
+/// standard valences from the property text of C17, by element symbol
+fn std_valences(sym: &str) -> &'static [u8] {
+    match sym {
+        "B" => &[3], "C" => &[4], "N" | "P" => &[3, 5], "O" => &[2], "S" => &[2, 4, 6],
+        "F" | "Cl" | "Br" | "I" | "At" | "Ts" => &[1],
+        _ => &[],
+    }
+}
+
+fn h_spec(vs: &[u8], v: usize) -> usize {
+    match vs.iter().find(|t| **t as usize >= v) { Some(t) => *t as usize - v, None => 0 }
+}
+
+/// (element symbol or "*", aromatic flag) of a kind, through Display only
+fn element_and_flag(k: &AtomKind) -> (String, bool) {
+    match k {
+        AtomKind::Star => ("*".to_string(), false),
+        AtomKind::Aliphatic(a) => (a.to_string(), false),
+        AtomKind::Aromatic(a) => (capitalize(&a.to_string()), true),
+        AtomKind::Bracket { symbol, .. } => match symbol {
+            BracketSymbol::Star => ("*".to_string(), false),
+            BracketSymbol::Element(e) => (e.to_string(), false),
+            BracketSymbol::Aromatic(a) => (capitalize(&a.to_string()), true),
+        },
+    }
+}
+
+fn capitalize(s: &str) -> String {
+    let mut c = s.chars();
+    match c.next() { Some(f) => f.to_uppercase().collect::<String>() + c.as_str(), None => String::new() }
+}
+
+impl<'a> Oracle<'a> {
+    // ---------------- C16: debracketing never changes what an atom means ----------------
+    fn c16(&mut self, toks: &[&str]) -> String {
+        match toks {
+            ["DEB", k, bos] => {
+                let bos: usize = match bos.parse() { Ok(v) => v, Err(_) => return "SKIP".to_string() };
+                let orig = match parse_kind(k) { Some(x) => x, None => return "SKIP".to_string() };
+                let hc = match &orig { AtomKind::Bracket { hcount: Some(h), .. } => { let v: u8 = h.into(); v as usize } _ => 0 };
+                if bos + hc > 255 { return "SKIP".to_string() } // outside the property's quantifier
+                let res = match catch_unwind(AssertUnwindSafe(|| parse_kind(k).unwrap().debracket(bos as u8))) {
+                    Ok(r) => r,
+                    Err(_) => return fail(format!("debracket({}) panics on {} although the sum fits in a byte", bos, k)),
+                };
+                let (e0, f0) = element_and_flag(&orig);
+                let (e1, f1) = element_and_flag(&res);
+                if e0 != e1 { return fail(format!("{}.debracket({}) = {}: element {} became {}", k, bos, kind_s(self.t, &res), e0, e1)) }
+                if f0 != f1 { return fail(format!("{}.debracket({}) = {}: aromatic flag changed", k, bos, kind_s(self.t, &res))) }
+                let bonds = |n: usize| (0..n).map(|_| Bond::new(BondKind::Single, 0)).collect::<Vec<_>>();
+                let h0 = purr::graph::Atom { kind: orig, bonds: bonds(bos) }.suppressed_hydrogens();
+                let unchanged_expected = match parse_kind(k).unwrap() {
+                    AtomKind::Bracket { isotope, configuration, charge, map, .. } => isotope.is_some() || configuration.is_some() || charge.is_some() || map.is_some(),
+                    _ => true,
+                };
+                if unchanged_expected && res != parse_kind(k).unwrap() {
+                    return fail(format!("{}.debracket({}) = {}: must be returned unchanged", k, bos, kind_s(self.t, &res)))
+                }
+                let rs = kind_s(self.t, &res);
+                let h1 = purr::graph::Atom { kind: res, bonds: bonds(bos) }.suppressed_hydrogens();
+                if h0 != h1 { return fail(format!("{}.debracket({}) = {}: {} hydrogens became {}", k, bos, rs, h0, h1)) }
+                "OK".to_string()
+            }
+            _ => "SKIP".to_string(),
+        }
+    }
+
+    // ---------------- C17: hydrogen counts and subvalence follow the valence model ----------------
+    fn c17(&mut self, toks: &[&str]) -> String {
+        match toks {
+            ["VAL", k, bs] => {
+                let kind = match parse_kind(k) { Some(x) => x, None => return "SKIP".to_string() };
+                let bonds = match imp::parse_bond_multi(bs) { Some(b) => b, None => return "SKIP".to_string() };
+                // bond-order sum from the documented orders
+                let sum: usize = bonds.iter().map(|b| match b.kind { BondKind::Double => 2, BondKind::Triple => 3, BondKind::Quadruple => 4, _ => 1 }).sum();
+                let targets: Vec<u8> = kind.targets().to_vec();
+                let (sym, _) = element_and_flag(&kind);
+                let (want_h, hc): (usize, usize) = match &kind {
+                    AtomKind::Star => (0, 0),
+                    AtomKind::Aliphatic(_) => (h_spec(std_valences(&sym), sum), 0),
+                    AtomKind::Aromatic(_) => (h_spec(std_valences(&sym), sum).saturating_sub(1), 0),
+                    AtomKind::Bracket { hcount, .. } => { let v = match hcount { Some(h) => { let v: u8 = h.into(); v as usize } None => 0 }; (v, v) }
+                };
+                // charged bracket atoms with targets: those of the isoelectronic neutral element
+                if let AtomKind::Bracket { symbol, charge: Some(q), .. } = &kind {
+                    if !targets.is_empty() {
+                        let z: i8 = q.into();
+                        let el = sym.clone();
+                        let an = PERIODIC.iter().position(|x| *x == el).map(|i| i as i32 + 1);
+                        let iso = an.and_then(|a| PERIODIC.get((a - z as i32 - 1) as usize));
+                        let want: &[u8] = match iso { Some(s) => match *s { "As" => &[3, 5], "Se" => &[2, 4, 6], "F" | "Cl" | "Br" | "I" | "At" | "Ts" => &[], x => std_valences(x) }, None => &[] };
+                        if want != targets.as_slice() { return fail(format!("targets of {} are {:?}, isoelectronic neutral element {:?} has {:?}", k, targets, iso, want)) }
+                        let _ = symbol;
+                    }
+                }
+                let atom = purr::graph::Atom { kind, bonds };
+                let sub = match catch_unwind(AssertUnwindSafe(|| atom.subvalence())) { Ok(v) => v as usize, Err(_) => return fail(format!("subvalence panics for {} with bond-order sum {}", k, sum)) };
+                let want_sub = h_spec(&targets, sum + hc);
+                if sub != want_sub { return fail(format!("subvalence of {} with bond-order sum {} is {}, valence model gives {}", k, sum, sub, want_sub)) }
+                let h = match catch_unwind(AssertUnwindSafe(|| atom.suppressed_hydrogens())) { Ok(v) => v as usize, Err(_) => return fail(format!("suppressed_hydrogens panics for {} with bond-order sum {}", k, sum)) };
+                if h != want_h { return fail(format!("hydrogen count of {} with bond-order sum {} is {}, valence model gives {}", k, sum, h, want_h)) }
                 "OK".to_string()
             }
             _ => "SKIP".to_string(),
